@@ -223,8 +223,10 @@ def rule_c(ctx, ix):
         for lp2 in [x for x in body_stmts(undo.node) if isinstance(x, ast.For)]:
             if unparse(lp2.iter) == '%s.old_states.items()' % u and isinstance(lp2.target, ast.Tuple) and len(lp2.target.elts) == 2:
                 k, v = (unparse(e) for e in lp2.target.elts)
+                # unconditionally: an entry that is skipped keeps the selection the command gave it
+                skipping = any(isinstance(x, (ast.Continue, ast.Break)) for x in ast.walk(lp2))
                 for x in lp2.body:
-                    if isinstance(x, ast.Assign) and unparse(x.targets[0]) == '%s.subset_state' % k and unparse(x.value) == v:
+                    if isinstance(x, ast.Assign) and unparse(x.targets[0]) == '%s.subset_state' % k and unparse(x.value) == v and not skipping:
                         re = True
         ctx.ob(R, undo.construct, 'undo re-assigns every snapshot entry', re,
                detail='%s.undo no longer re-assigns subset_state for every entry of the snapshot' % cname, where=undo.where)
